@@ -13,6 +13,9 @@ def rules(ctx):
     B.mode_routing(ctx, "C05.mode-routing")
     B.prep_reset(ctx, "C05.prep-reset")
     c01.layout(ctx, "C05.fock-layout")
+    # a measurement acts on the spectators only through the conditional update: its gain and the sign of the innovation
+    from . import c06
+    c06.gain(ctx, "C05.cond-update")
     ctx.floor("C05.gauss-footprint", 40)
     ctx.floor("C05.gauss-deadstore", 40)
     ctx.floor("C05.gauss-coverage", 14)
